@@ -280,7 +280,10 @@ class FlowIRExperimentConfiguration:
 
         system_vars = system_vars or {}
         config_patches = config_patches or {}
-        variable_files = list(set(variable_files or []))
+        # VV: De-duplicate while preserving the order in which the files are layered (a `set` would layer them
+        # in an order that depends on the hash seed of the process). Keep the last occurrence of a path so
+        # that the outcome is identical to layering every file in the order given (the last one wins).
+        variable_files = list(reversed(list(dict.fromkeys(reversed(list(variable_files or []))))))
 
         out_errors = []
         self.file_format = file_format
@@ -481,7 +484,10 @@ class FlowIRExperimentConfiguration:
 
         systemvars = systemvars or {}
         config_patches = config_patches or {}
-        variable_files = list(set(variable_files or []))
+        # VV: De-duplicate while preserving the order in which the files are layered (a `set` would layer them
+        # in an order that depends on the hash seed of the process). Keep the last occurrence of a path so
+        # that the outcome is identical to layering every file in the order given (the last one wins).
+        variable_files = list(reversed(list(dict.fromkeys(reversed(list(variable_files or []))))))
 
         out_errors = []
 
